@@ -86,10 +86,12 @@ def render_dsc(s, rng):
 
 def graph(srcs, arch):
     tt = name_to_triple(arch)
-    provider = {}
+    # EVERY source that lists a binary builds it ("after each source that builds a binary it build-depends on"; until the r13
+    # repair 0173c55 this oracle - like the code - kept the last one only)
+    providers = {}
     for i, s in enumerate(srcs):
         for b in s["bins"]:
-            provider[b] = i
+            providers.setdefault(b, set()).add(i)
     edges = {i: set() for i in range(len(srcs))}
     for i, s in enumerate(srcs):
         for rels in s["fields"]:
@@ -98,8 +100,7 @@ def graph(srcs, arch):
                     if neg is None:
                         continue
                     if spec_set(neg, [name_to_triple(x) for x in lst], tt):
-                        if name in provider:
-                            edges[i].add(provider[name])
+                        edges[i] |= providers.get(name, set())
                         break
     return edges
 
